@@ -697,6 +697,59 @@ def narrow_dtype_stream(ctx):
                     ctx.violation(sig, {"kind": "indexed update with narrow-dtype coordinates differs from the loop-notation meaning", "detail": bad,
                                         "description": "b [h] c, b q, b q", "shapes": [[B, H, C], [B, Q], [B, Q]], "coordinate_dtype": np.dtype(dt).name,
                                         "mode": mode, "backend": backend, "coordinates": idx.tolist()[:6], "updates": u.tolist()[:6]})
+    # updates in a narrower / unsigned dtype than the target (the update value is applied in the TARGET's arithmetic: a uint8
+    # update of 3 subtracted from a float target is -3, not 253), and targets that are not C-contiguous (a flattening reshape
+    # of such a target is a copy: the scatter must still reach the returned tensor)
+    idx2 = np.array([[0, 2], [4, 1]], dtype=np.int64)
+    for tdt, udt, uvals in (("float64", "uint8", [[1, 6], [15, 3]]), ("int64", "uint16", [[1, 6], [15, 3]]), ("int32", "int8", [[-128, 6], [15, 3]]),
+                            ("float64", "int64", [[1, 6], [15, 3]])):
+        for layout in ("contiguous", "transposed", "fortran", "column-slice"):
+            base = (np.arange(10) * 10).reshape(2, 5).astype(tdt)
+            if layout == "contiguous":
+                t = base.copy()
+            elif layout == "transposed":
+                t = np.ascontiguousarray(base.T).T
+            elif layout == "fortran":
+                t = np.asfortranarray(base)
+            else:
+                wide = np.zeros((2, 10), dtype=tdt)
+                wide[:, ::2] = base
+                t = wide[:, ::2]
+            u = np.array(uvals, dtype=udt)
+            for mode in MODES:
+                for backend in BACKENDS:
+                    want = np.array(t, dtype=tdt, copy=True)
+                    for a in range(2):
+                        for q in range(2):
+                            v = np.asarray(u[a, q]).astype(tdt)
+                            if mode == "set":
+                                want[a, idx2[a, q]] = v
+                            elif mode == "add":
+                                want[a, idx2[a, q]] += v
+                            else:
+                                want[a, idx2[a, q]] -= v
+                    ctx.count("dtype_layout_cases")
+                    sig = f"einx.{OPNAME[mode]}('a [h], a q, a q') target {tdt} (2,5) {layout}, updates {udt} {uvals} backend={backend}"
+                    ctx.case(sig, True)
+                    try:
+                        got = np.asarray(getattr(einx, OPNAME[mode])("a [h], a q, a q", t.copy(order="K") if layout == "contiguous" else t, idx2.copy(), u.copy(), backend=backend))
+                        bad = None if (got.shape == want.shape and np.array_equal(got.astype(np.float64), want.astype(np.float64))) else f"returned {got.tolist()} instead of {want.tolist()}"
+                    except Exception as e:
+                        bad = None if is_rejection(e) else f"{type(e).__name__}: {str(e)[:150]}"
+                    if layout != "contiguous":
+                        # the caller's (non-contiguous) target may have been updated in place by the call: rebuild it for the next one
+                        if layout == "transposed":
+                            t = np.ascontiguousarray(base.T).T
+                        elif layout == "fortran":
+                            t = np.asfortranarray(base)
+                        else:
+                            wide = np.zeros((2, 10), dtype=tdt)
+                            wide[:, ::2] = base
+                            t = wide[:, ::2]
+                    if bad is not None and found < 4:
+                        found += 1
+                        ctx.violation(sig, {"kind": "indexed update differs from the loop-notation meaning (update dtype / target layout)", "detail": bad,
+                                            "target_dtype": tdt, "update_dtype": udt, "layout": layout, "mode": mode, "backend": backend})
     # the coordinates themselves in a dtype that cannot hold the flat address (the multiplication by the stride happens in
     # the coordinates' dtype): get_at and set_at on a 20x20 target with int8 coordinates
     tgt = np.arange(400, dtype=np.int64).reshape(20, 20)
